@@ -96,12 +96,66 @@ Proof.
   intro Eb. subst br. simpl in Hd. lra.
 Qed.
 
-(* ------------------------------------------------------------------ refutations
-   Full-strength statement: "each product's activity is the decay rate given by the exact solution
-   of its reaction chain" on every branch of the model.  It fails on the small-argument branch. *)
+(* ------------------------------------------------------------------ the source as it stands
+   (configuration regenerated from /repo on every run: no small-argument branch, expm1 form) *)
+Lemma current_cfg_no_small_branch : cfg_small current_cfg = false.
+Proof. reflexivity. Qed.
+
+(* "each product's activity is the decay rate given by the exact solution of its reaction chain":
+   every branch of the model of the current source *)
+Theorem model_refines_spec_current : forall r amass mass env t br a m lam spec,
+  activity_row r amass mass env t = OAct br a m lam spec ->
+  (br = BMain -> decay_const (Q2R (r_thalf r)) - rate (Q2R (row_flux r env)) (Q2R (row_xs r env))
+                 + rate (Q2R (fluence env)) (Q2R (row_xs2 r env)) <> 0) ->
+  evalR ln2_env_R a =
+    activity_end (chain_of br) (Q2R mass) (IZR amass) (Q2R (row_flux r env)) (Q2R (fluence env))
+                 (Q2R (row_xs r env)) (Q2R (row_xs2 r env)) (Q2R (r_thalf r)) (Q2R (r_thalf_par r)) (Q2R t).
+Proof. intros until spec. apply (model_refines_spec_repaired current_cfg); exact current_cfg_no_small_branch. Qed.
+
+(* "never fail to compute for physical inputs": on the 513 rows the model of the current source neither
+   raises nor declines *)
+Theorem never_raises_current : forall rows, the_rows = Some rows -> forall r, In r rows ->
+  forall mass env t, (forall e, activity_row r (r_A r) mass env t <> ORaise e)
+                     /\ activity_row r (r_A r) mass env t <> OUndecided.
+Proof.
+  intros rows E r Hin mass env t. split; [|apply no_small_never_undecided; exact current_cfg_no_small_branch].
+  intros e H. destruct (no_small_raise_only_zero_div _ _ _ _ _ _ _ current_cfg_no_small_branch H) as [_ Hz].
+  pose proof (rows_all_ok rows E r Hin) as Hok. unfold row_ok in Hok.
+  repeat (apply andb_prop in Hok; destruct Hok as [Hok ?]).
+  assert (HA : (0 < r_A r)%Z) by (apply Z.ltb_lt; assumption).
+  assert (HT : Qeq_bool (r_thalf r) 0 = false).
+  { destruct (Qeq_bool (r_thalf r) 0) eqn:Eq; [|reflexivity]. apply Qeq_bool_iff in Eq.
+    match goal with Hl : Qlt_bool 0 (r_thalf r) = true |- _ => apply Qlt_bool_R in Hl; rewrite (Qeq_eqR _ _ Eq) in Hl; lra end. }
+  destruct Hz as [Hz|[Hz|[[Hk Hz]|[Hk Hz]]]].
+  - lia.
+  - congruence.
+  - unfold is_b, is_2n in *. rewrite Hk in *.
+    match goal with Hl : Qlt_bool 0 (r_thalf_par r) = true |- _ => apply Qlt_bool_R in Hl end.
+    apply Qeq_bool_iff in Hz. rewrite (Qeq_eqR _ _ Hz) in *. lra.
+  - unfold is_b in *. rewrite Hk in *.
+    match goal with Hn : negb _ = true |- _ => rewrite Hz in Hn; discriminate Hn end.
+Qed.
+
+(* all 513 rows, all physical inputs: the model's activity itself is non-negative *)
+Theorem activity_nonneg_current : forall rows, the_rows = Some rows -> forall r, In r rows ->
+  forall mass env t br a m lam spec, physical mass env t ->
+  activity_row r (r_A r) mass env t = OAct br a m lam spec ->
+  distinct_rates (chain_of br) (Q2R (row_flux r env)) (Q2R (fluence env)) (Q2R (row_xs r env)) (Q2R (row_xs2 r env))
+                 (Q2R (r_thalf r)) (Q2R (r_thalf_par r)) ->
+  0 <= evalR ln2_env_R a.
+Proof.
+  intros rows E r Hin mass env t br a m lam spec Hp H Hd.
+  destruct (activity_nonneg rows E r Hin current_cfg mass env t br a m lam spec Hp H Hd) as [_ Hn].
+  apply Hn. apply (no_small_branch _ _ _ _ _ _ _ _ _ _ _ current_cfg_no_small_branch H).
+Qed.
+
+(* ------------------------------------------------------------------ the source before commit 05a94d2
+   (kept as a record of the repaired defect: the small-argument branch was not the solution and could
+   raise; old_cfg is NOT the configuration the tie runs) *)
 Definition w_row : arow :=
   mkRow 4 9 "Be-9" "Be-10" "act" false 100 (76 # 10000) (4 # 1000) 14016000000 0 0 0 "1600000 y".
-Definition w_out : outcome := activity_row_with true w_row 9 1 (mkEnv 100000 0 0) 1.
+Definition old_cfg : actcfg := mkCfg true false true.   (* activity() before commits 05a94d2 / 4ec1eac *)
+Definition w_out : outcome := activity_row_with old_cfg w_row 9 1 (mkEnv 100000 0 0) 1.
 Definition w_a : expr := match w_out with OAct _ a _ _ _ => a | _ => c 0 end.
 Definition w_spec : expr := match w_out with OAct _ _ _ _ s => s | _ => c 0 end.
 
@@ -110,7 +164,7 @@ Definition w_spec : expr := match w_out with OAct _ _ _ _ s => s | _ => c 0 end.
 Theorem small_branch_refuted :
   exists r amass mass env t a m lam spec,
     physical mass env t /\
-    activity_row_with true r amass mass env t = OAct BSmall a m lam spec /\
+    activity_row_with old_cfg r amass mass env t = OAct BSmall a m lam spec /\
     0 < evalR ln2_env_R spec /\
     evalR ln2_env_R a > (149 / 100) * evalR ln2_env_R spec.
 Proof.
@@ -134,7 +188,7 @@ Qed.
 Definition w2_row : arow :=
   mkRow 6 13 "C-13" "C-14" "act" false (111 # 100) (137 # 100000) (17 # 10000) 50247360 0 0 0 "5736 y".
 Theorem small_branch_raises_refuted :
-  exists r amass mass env t, physical mass env t /\ activity_row_with true r amass mass env t = ORaise TypeErr.
+  exists r amass mass env t, physical mass env t /\ activity_row_with old_cfg r amass mass env t = ORaise TypeErr.
 Proof.
   exists w2_row, 13%Z, 1%Q, (mkEnv 4000000000000000 0 0), (1 # 1000)%Q. split.
   - unfold physical; simpl. rewrite <- Q2R_0. repeat split; apply Qle_bool_R; reflexivity.
